@@ -308,6 +308,8 @@ def refract(n, nprime, S, r):
     """
     mu = n/nprime
     musq = mu * mu
+    # r arrives as the gradient (Fx, Fy, 1); Snell's law needs the unit normal
+    r = r / np.sqrt(_multi_dot(r, r))[:, np.newaxis]
     cosI = _multi_dot(r, S)
     cosIsq = cosI * cosI
     # the inline newaxis-es are terrible for readability, but serve a performance purpose
